@@ -516,7 +516,8 @@ theorem step_chunk (c : Core) (hc : c.err = none) (hp : c.part = .size) (data : 
       parseHex_hexDigits]
     have hne' : hexDigits (m + 1) ≠ [] := hm ▸ hne
     have hz : ¬ ((m : Int) + 1 = 0) := by omega
-    simp [hne', hm, modeOf, hz]
+    have hz' : ¬ ((0 : Int) = (m : Int) + 1) := by omega
+    simp [hne', hm, modeOf, hz, hz']
   rw [h1]
   have hc' : ({ c with part := Part.body } : Core).err = none := hc
   rw [body_full _ hc' data m [] (by omega)]
